@@ -145,6 +145,14 @@ CHECKS = {
    note=TB + "Partial: buffer bounds of iwitoa for every size, and the order laws / numeric agreement / prefix agreement of integer, real-number and compound comparators are "
         "decided by model-vs-implementation comparison and the oracle, not proved. iwafcmp fractions: exact rationals in the model vs long double in C (generator stays where both agree).",
    technique="Coq proofs (induction + lia, finite sweep) over hand-written model; extracted-model vs implementation correspondence; regenerated facts"),
+ "C20": dict(
+   text="Proof (Coq) over statement-level LTS models of iwstw.c and iwtp.c (one transition per lock/unlock/wait/wake/queue edit/callback, spurious wake-ups, any number "
+        "of client threads): accepted_partition, status_monotone, executed_at_most_once, fifo, limit_respected, no_lost_wakeup, shutdown_wait_drains, "
+        "shutdown_nowait_discards, accepted_eventually (and refutations for the code as found, with the real event trace as witness). Every real event trace "
+        "(hook iwverif_ev or pthread interposition) must be a path of the extracted model; black-box outcome oracle (per-task counts, FIFO stamps, discard log, watchdog, TSan).",
+   design="5/C20", note=TB + "Partial: no_deadlock is not stated; tp has no started-order theorem; real condvar semantics beyond 'may wake spuriously' and kernel scheduling are runtime evidence. "
+        "Caller calls overlapping the end of shutdown are outside the contract (recorded in notes/exec.md).",
+   technique="Coq invariant proofs over LTS models + event-trace conformance of real executions + outcome oracle"),
 }
 PENDING = {}
 ALL = ["C%02d" % i for i in range(1, 21)]
